@@ -63,6 +63,21 @@ fn dagger(t: &mut Tape, ctx: &mut Ctx, al: gen::Alpha) -> CheckResult {
     let got = wf(ctx, "lax-dagger", from_lax(&to_lax(&lf).dagger()), "lax f†")?;
     let want = Lax { d: f.dagger(), q: lf.q.clone() };
     ensure!(ctx, got == want, "lax-dagger", "lax dagger\n  got : {}\n  want: {}", got.pretty(), want.pretty());
+    // lax contravariance with operands that still carry pending unifications
+    ctx.sub("lax-dagger-contravariant");
+    {
+        let qg = gen::pending_pairs(t, g, 3, true);
+        let qf = gen::pending_pairs(t, f, 3, true);
+        let (lf2, lg2) = (Lax { d: f.clone(), q: qf }, Lax { d: g.clone(), q: qg });
+        let (a, b) = (to_lax(&lf2), to_lax(&lg2));
+        let l = open_hypergraphs::category::Arrow::compose(&a, &b).ok_or_else(|| ctx.fail("lax-dagger-contravariant", "lax f;g undefined"))?.dagger();
+        let r = open_hypergraphs::category::Arrow::compose(&b.dagger(), &a.dagger()).ok_or_else(|| ctx.fail("lax-dagger-contravariant", "lax g†;f† undefined although types match"))?;
+        let l = wf(ctx, "dagger-wf", sv::from_strict(&l.to_strict()), "strict((f;g)†)")?;
+        let r = wf(ctx, "dagger-wf", sv::from_strict(&r.to_strict()), "strict(g†;f†)")?;
+        require_iso(ctx, "lax-dagger-contravariant", &l, &r, "lax (f;g)† vs g†;f†")?;
+        let want = lf2.strictify().unwrap().compose(&lg2.strictify().unwrap()).expect("composable").dagger();
+        require_iso(ctx, "lax-dagger-contravariant", &l, &want, "lax (f;g)† vs the model")?;
+    }
     if f.s != f.t && !f.edges.is_empty() {
         ctx.nontrivial(&(f, g));
         if ctx.want_sample {
